@@ -9,14 +9,19 @@ EXTENDS Integers, Sequences, FiniteSets, TLC, Json, IOUtils
 Rec == ndJsonDeserialize(IOEnv.TRACE)
 VARIABLES l, s
 Init0 == [run |-> -1, pool |-> <<>>, bad |-> {}, nbad |-> 0, runs |-> 0, events |-> 0]
+\* total version of SubSeq: after a reported mismatch the pool follows the bytes the code showed, which need not
+\* be as long as the (cached) len() the driver chose its arguments from
+Sub(q, a, b) == LET lo == IF a < 1 THEN 1 ELSE a
+                    hi == IF b > Len(q) THEN Len(q) ELSE b
+                IN IF lo > hi THEN <<>> ELSE SubSeq(q, lo, hi)
 Apply(pool, e) ==
   CASE e.op = "new" -> Append(pool, e.bytes)
     [] e.op = "header" -> [pool EXCEPT ![e.m] = e.bytes \o @]
     [] e.op = "concat" -> [pool EXCEPT ![e.m] = @ \o pool[e.o]]
     [] e.op = "clone" -> Append(pool, pool[e.m])
-    [] e.op = "slice" -> [pool EXCEPT ![e.m] = SubSeq(@, e.start + 1, IF e.n < 0 THEN Len(@) ELSE e.start + e.n)]
-    [] e.op = "cut" -> Append([pool EXCEPT ![e.m] = SubSeq(@, e.n + 1, Len(@))], SubSeq(pool[e.m], 1, e.n))
-    [] e.op = "remove_front" -> [pool EXCEPT ![e.m] = SubSeq(@, e.n + 1, Len(@))]
+    [] e.op = "slice" -> [pool EXCEPT ![e.m] = Sub(@, e.start + 1, IF e.n < 0 THEN Len(@) ELSE e.start + e.n)]
+    [] e.op = "cut" -> Append([pool EXCEPT ![e.m] = Sub(@, e.n + 1, Len(@))], Sub(pool[e.m], 1, e.n))
+    [] e.op = "remove_front" -> [pool EXCEPT ![e.m] = Sub(@, e.n + 1, Len(@))]
 Why(p, o) ==
   IF Len(o.vecs) # Len(p) THEN "pool size"
   ELSE IF \E i \in 1..Len(p) : o.vecs[i] # p[i] THEN "to_vec differs from the byte-vector semantics (possibly of a message that was not operated on)"
